@@ -30,6 +30,7 @@ type RunResult struct {
 	Probes     map[string]int `json:"probes"`
 	Ops        map[string]int `json:"ops"`
 	States     []string       `json:"states,omitempty"` // distinct module-state digests (short)
+	FaultCtx   []string       `json:"fault_ctx,omitempty"`
 	Halted     string         `json:"halted,omitempty"`
 	EndedBy    string         `json:"ended_by,omitempty"`
 	Flags      []string       `json:"flags,omitempty"`
@@ -110,6 +111,7 @@ func Execute(t *testing.T, tr *Trace, gen *Gen, prop string, bubble bool) *RunRe
 	for _, k := range sortedKeys(w.St.StateDigests) {
 		res.States = append(res.States, k)
 	}
+	res.FaultCtx = sortedKeys(w.St.FaultCtx)
 	res.Signature = signatureOf(w)
 	nf := 0
 	for _, v := range w.St.Faults {
